@@ -29,7 +29,7 @@ def headerWith (exts : List String) : Doc :=
   .node .headerRef { strs := [("key", "X-H")], flags := ["resolved"] }
     [("value", .node .header { flags := ["hasSchema"], nums := [("content", 0)], exts := exts } [("schema", schemaRefTo strSchema)])]
 def responseWithHeader (exts : List String) : Doc := .node .response { flags := ["hasDescription"] } [("headers", headerWith exts)]
-/-- #28 (a): `"bogus": 1` inside a response header -/
+/-- #28 (a), repaired by 78418b3: `"bogus": 1` inside a response header -/
 def d28a : Doc := root [pathItem "/p" [op [] (responseWithHeader ["bogus"])]]
 def d28aOK : Doc := root [pathItem "/p" [op [] (responseWithHeader ["x-fine"])]]
 
@@ -48,13 +48,19 @@ def dInner : Doc :=
     (.node .schema { lists := [("type", ["object"])] }
       [("properties", .node .innerSchemaRef { strs := [("key", "a")], sibs := ["bogus"], flags := ["resolved"] } [("value", strSchema)])]) []))]]
 
-/-- an example that gives `externalValue` only, under a media type with a string schema -/
-def dExternal : Doc :=
-  root [pathItem "/p" [op [] (responseWithContent (mediaType strSchema
-    [("examples", .node .exampleRef { strs := [("key", "e")], flags := ["resolved"] }
-        [("value", .node .example { strs := [("externalValue", "https://example.com/e.json")] } [])])]))]]
+/-- repaired by 9d56ffd: an example that gives `externalValue` only, under a media type with a string schema -/
 def mediaTypeHE (schema : Doc) (kids : List (String × Doc)) : Doc :=
   .node .mediaType { strs := [("key", "application/json")], flags := ["hasSchema", "hasExamples"] } (("schema", schemaRefTo schema) :: kids)
+def externalExample : String × Doc :=
+  ("examples", .node .exampleRef { strs := [("key", "e")], flags := ["resolved"] }
+      [("value", .node .example { strs := [("externalValue", "https://example.com/e.json")] } [])])
+def dExternal : Doc :=
+  root [pathItem "/p" [op [] (responseWithContent (mediaTypeHE strSchema [externalExample]))]]
+/-- … next to an example whose value (an integer) violates the string schema -/
+def dExternalBad : Doc :=
+  root [pathItem "/p" [op [] (responseWithContent (mediaTypeHE strSchema [externalExample,
+    ("examples", .node .exampleRef { strs := [("key", "f")], flags := ["resolved"] }
+      [("value", .node .example { vals := [("value", .int)] } [])])]))]]
 
 /-- a default that violates its schema, two levels down (`items` of a schema without `type`) -/
 def dDeepDefault : Doc :=
@@ -62,7 +68,7 @@ def dDeepDefault : Doc :=
     (.node .schema {} [("items", .node .innerSchemaRef { flags := ["resolved"] }
         [("value", .node .schema { lists := [("type", ["integer"])], flags := ["simple"], vals := [("default", .str)] } [])])]) []))]]
 
-/-- a response header with an integer schema and the example `"x"` -/
+/-- repaired by 3a27745: a response header with an integer schema and the example `"x"` -/
 def headerWithExample (v : Val) : Doc :=
   .node .headerRef { strs := [("key", "X-H")], flags := ["resolved"] }
     [("value", .node .header { flags := ["hasSchema", "hasExample"], nums := [("content", 0)], vals := [("example", v)] }
@@ -76,5 +82,44 @@ def dHeaderExampleOK : Doc :=
 def dSecondOp : Doc :=
   root [pathItem "/r/{n}" [op [pathParam "n"] plainResponse,
     .node .operation { strs := [("key", "put")] } [("parameters", .node .parameters {} []), ("responses", okResponses plainResponse)]]]
+
+/-- a request-body media type with an object schema and one encoding object -/
+def encodingDoc (encAttrs : Attrs) (hdrs : List Doc) : Doc :=
+  root [pathItem "/p" [op [] (responseWithContent (mediaType
+    (.node .schema { lists := [("type", ["object"])], flags := ["simple"] } [])
+    [("encoding", .node .encoding encAttrs (hdrs.map (fun h => ("headers", h))))]))]]
+/-- a header of an encoding object that wrongly carries `name` -/
+def namedHeader : Doc :=
+  .node .headerRef { strs := [("key", "X-E")], flags := ["resolved"] }
+    [("value", .node .header { strs := [("name", "X")], flags := ["hasSchema"], nums := [("content", 0)] } [("schema", schemaRefTo strSchema)])]
+def fineHeader : Doc :=
+  .node .headerRef { strs := [("key", "X-E")], flags := ["resolved"] }
+    [("value", .node .header { flags := ["hasSchema"], nums := [("content", 0)] } [("schema", schemaRefTo strSchema)])]
+/-- a violation inside a header of an encoding object: `Encoding.Validate` drops the error -/
+def dEncHeader : Doc := encodingDoc { strs := [("key", "f")] } [namedHeader]
+/-- … and the failing header masks the encoding object's own violations (unsupported style, extra field) -/
+def dEncMasked : Doc := encodingDoc { strs := [("key", "f"), ("style", "matrix")], exts := ["bogus"] } [namedHeader]
+/-- repaired by 78418b3: an encoding object with an unsupported style / an extra field, headers fine -/
+def dEncStyle : Doc := encodingDoc { strs := [("key", "f"), ("style", "matrix")] } [fineHeader]
+def dEncExtra : Doc := encodingDoc { strs := [("key", "f")], exts := ["bogus"] } []
+def dEncOK : Doc := encodingDoc { strs := [("key", "f"), ("style", "deepObject")], exts := ["x-e"] } [fineHeader]
+
+/-- a header with `example` next to `examples` (mutually exclusive), schema given -/
+def dHeaderBoth : Doc :=
+  root [pathItem "/p" [op [] (.node .response { flags := ["hasDescription"] } [("headers",
+    .node .headerRef { strs := [("key", "X-H")], flags := ["resolved"] }
+      [("value", .node .header { flags := ["hasSchema", "hasExample", "hasExamples"], nums := [("content", 0)], vals := [("example", .int)] }
+        [("schema", schemaRefTo (.node .schema { lists := [("type", ["integer"])], flags := ["simple"] } []))])])])]]
+
+/-- an operation whose `servers` holds a server object without `url` -/
+def dOpServer : Doc :=
+  root [pathItem "/p" [.node .operation { strs := [("key", "get")] }
+    [("parameters", .node .parameters {} []), ("responses", okResponses plainResponse),
+     ("servers", .node .servers {} [("items", .node .server {} [])])]]]
+/-- a path item whose `servers` holds a server with an undeclared variable -/
+def dPathItemServer : Doc :=
+  root [.node .pathItem { strs := [("key", "/p")] }
+    [("operations", op [] plainResponse),
+     ("servers", .node .servers {} [("items", .node .server { strs := [("url", "https://{env}.example.com")] } [])])]]
 
 end KinModel.DocValidate.W
